@@ -106,6 +106,11 @@ class Run:
         self.rid = 0
         self.max_open = 0
         self.harness_errors: list[str] = []  # exceptions raised by kit code itself (never swallowed)
+        # C19: jobs whose first execution waits until all of them have started, so that their
+        # failures are injected in the same loop turn (job durations are arbitrary: feasible schedule)
+        self.barrier: set[str] = {p["job"] for p in plan if p.get("barrier")}
+        self.arrived: set[str] = set()
+        self.gate: asyncio.Event | None = None
 
     def ev(self, ev: str, job: str, **kw) -> dict:
         self.seq += 1
@@ -128,6 +133,9 @@ class Run:
         return sorted(
             j for j, insts in self.hist.items() if any(not os.path.exists(f) for i in insts for f in i["files"])
         )
+
+    def missing_instances(self) -> set:
+        return {(j, i["seq"]) for j, insts in self.hist.items() for i in insts if any(not os.path.exists(f) for f in i["files"])}
 
     def record_done(self, job: str, files: list[str], contents: dict[str, str]) -> None:
         e = self.ev("done", job)
@@ -190,9 +198,10 @@ def _delete_workdir(context, job: Job) -> None:
     if not os.path.basename(workdir).startswith(VOLATILE):
         raise HarnessError(f"refusing to delete {workdir}")
     r = _run()
-    before = set(r.missing())
+    before = r.missing_instances()
     shutil.rmtree(workdir, ignore_errors=True)
-    lost = sorted(set(r.missing()) - before)
+    # jobs that lose an output instance *now* (a job appears again when a regenerated instance is lost)
+    lost = sorted({j for j, _ in r.missing_instances() - before})
     r.ev("delete", job.name, workdir=os.path.basename(workdir), lost=lost)
     for rec in r.open_recoveries.values():
         rec["lost_during"].update(lost)
@@ -344,7 +353,11 @@ class KitCommand(Command):
             # unique base name per (step, tag, leaf): the transfer step stages every input file of a job
             # flat into one input directory (as the repository's test transfer step does), so two
             # producers must never use the same base name
-            path = os.path.join(job.output_directory, f"{self.spec['label']}-{posixpath.basename(job.name)}-{counter[0]}.txt")
+            # (loops may opt for the repository tests' naming, "result-<step>": the same base name in
+            # every iteration, which is what iterated tools usually produce; sound there because the
+            # iterations are sequential and each consumer stages exactly one of them)
+            tag = "" if self.spec.get("same_names") else "-" + posixpath.basename(job.name)
+            path = os.path.join(job.output_directory, f"{self.spec['label']}{tag}-{counter[0]}.txt")
             counter[0] += 1
             with open(path, "w") as fh:
                 fh.write(value["file"])
@@ -360,6 +373,15 @@ class KitCommand(Command):
         context = self.step.workflow.context
         r.ev("start", job.name, wf=self.step.workflow.persistent_id)
         await _pause()
+        if job.name in r.barrier and job.name not in r.arrived:
+            r.arrived.add(job.name)
+            if r.gate is None:
+                r.gate = asyncio.Event()
+            if r.arrived >= r.barrier:
+                r.ev("barrier-open", job.name)
+                r.gate.set()
+            else:
+                await r.gate.wait()
         if _inject(context, job, "execute"):
             out = CommandOutput("Injected failure", Status.FAILED)
         else:
@@ -863,7 +885,7 @@ def build_workflow(context, shape: Shape, inputs_dir: str, deployments: dict[str
         }
         loop_in = b.loop_inputs("/body", ins)
         counter = b.execute("/increment", {"counter": loop_in["counter"]}, {"label": "increment", "op": "inc"}, first_dep, out_name="counter")
-        body = b.execute("/body", dict(loop_in), {"label": "body", "op": "map"}, first_dep, out_name="test1")
+        body = b.execute("/body", dict(loop_in), {"label": "body", "op": "map", "same_names": bool(shape.desc.get("same_names"))}, first_dep, out_name="test1")
         # the body command reads only its "test" input
         body_step = b.exec_steps["/body"]
         body_step.command.spec["ports"] = ["test"]
@@ -920,6 +942,76 @@ class Result:
         self.alloc_status: dict[str, str] = {}
         self.plan: list[dict] = []
         self.max_retries: int | None = None
+        self.simultaneous_completions = 0
+        self.recovery_wfs: list = []  # workflows run by the failure manager (harness-side tracking)
+        self.barrier_stuck = False
+        self.wf = None  # the original workflow (inspected at a deadlock)
+        self.starved: list[str] = []  # at a deadlock: "<StepClass>:<PortClass>" of steps waiting on a port nobody feeds
+
+
+class _OSet(set):
+    """A set whose iteration order is its insertion order (a real ``set`` of tasks iterates in an order
+    that depends on memory addresses)."""
+
+    def __init__(self, items=()):
+        super().__init__()
+        self._d: dict = {}
+        for i in items:
+            self.add(i)
+
+    def add(self, x) -> None:
+        self._d[x] = None
+        super().add(x)
+
+    def discard(self, x) -> None:
+        self._d.pop(x, None)
+        super().discard(x)
+
+    def remove(self, x) -> None:
+        super().remove(x)
+        del self._d[x]
+
+    def pop(self):
+        x = next(iter(self._d))
+        self.remove(x)
+        return x
+
+    def clear(self) -> None:
+        self._d.clear()
+        super().clear()
+
+    def __iter__(self):
+        return iter(list(self._d))
+
+
+class _OrderedWait:
+    """``asyncio.wait`` returns *sets* of tasks and StreamFlow iterates over them (``for task in
+    finished``): when several tasks complete in the same loop turn, the order in which they are handled
+    depends on memory addresses, i.e. it is arbitrary in a real run. For the duration of a scenario
+    ``asyncio.wait`` is wrapped so that this order is a function of the case: the order of the awaited
+    collection, permuted by ``salt`` (0 = as given, 1 = reversed, k = rotated by k). Every order so
+    produced is one a real run can exhibit."""
+
+    def __init__(self, salt: int):
+        self.salt = salt
+        self.orig = asyncio.wait
+        self.multi = 0  # how many times more than one task was returned as done
+
+    def _perm(self, items: list) -> list:
+        if len(items) < 2 or self.salt == 0:
+            return items
+        if self.salt == 1:
+            return items[::-1]
+        k = self.salt % len(items)
+        return items[k:] + items[:k]
+
+    async def __call__(self, fs, *, timeout=None, return_when=asyncio.ALL_COMPLETED):
+        order = list(fs)
+        done, pending = await self.orig(order, timeout=timeout, return_when=return_when)
+        d = [t for t in order if t in done]
+        if len(d) > 1:
+            self.multi += 1
+        return _OSet(self._perm(d)), _OSet([t for t in order if t in pending])
 
 
 class _DetUUID:
@@ -954,11 +1046,13 @@ def resolve_plan(shape: Shape, plan: list) -> list[dict]:
                 out[key]["kind"] = "stop"
         else:
             out[key] = {"job": job, "phase": phase, "kind": kind, "times": int(times)}
+        if len(entry) > 5 and entry[5] and phase == "execute":
+            out[key]["barrier"] = True
     return list(out.values())
 
 
 async def _scenario(res: Result, shape_desc: dict, plan: list[dict], max_retries: int | None, schedule: list[int] | None,
-                    manager: str, retry_delay: int) -> None:
+                    manager: str, retry_delay: int, wait_order: int = 0) -> None:
     global _RUN, LAST_RUN
     shape = Shape(shape_desc)
     res.shape = shape
@@ -971,6 +1065,19 @@ async def _scenario(res: Result, shape_desc: dict, plan: list[dict], max_retries
     scratch = os.path.realpath(tempfile.mkdtemp(prefix="vf-rec-"))
     fake_uuid = _DetUUID()
     uuid.uuid4 = fake_uuid
+    ordered_wait = _OrderedWait(wait_order)
+    asyncio.wait = ordered_wait
+    import streamflow.recovery.failure_manager as _fm_mod
+
+    recovery_workflows = res.recovery_wfs
+
+    class _TrackedExecutor(StreamFlowExecutor):
+        def __init__(self, workflow):
+            super().__init__(workflow)
+            recovery_workflows.append(workflow)
+
+    orig_executor = _fm_mod.StreamFlowExecutor
+    _fm_mod.StreamFlowExecutor = _TrackedExecutor
     prev_run, _RUN = _RUN, run
     ctx = None
     try:
@@ -990,6 +1097,7 @@ async def _scenario(res: Result, shape_desc: dict, plan: list[dict], max_retries
             deployments[dep] = DeploymentConfig(name=dep, type="local", config={}, external=True, lazy=False, workdir=wd)
             await ctx.deployment_manager.deploy(deployments[dep])
         wf, builder, out_port = build_workflow(ctx, shape, inputs_dir, deployments)
+        res.wf = wf
         await wf.save(ctx.database)
         try:
             await StreamFlowExecutor(wf).run()
@@ -1019,6 +1127,9 @@ async def _scenario(res: Result, shape_desc: dict, plan: list[dict], max_retries
     finally:
         _RUN = prev_run
         uuid.uuid4 = fake_uuid.orig
+        asyncio.wait = ordered_wait.orig
+        _fm_mod.StreamFlowExecutor = orig_executor
+        res.simultaneous_completions = ordered_wait.multi
         try:
             if ctx is not None:
                 try:
@@ -1032,7 +1143,7 @@ async def _scenario(res: Result, shape_desc: dict, plan: list[dict], max_retries
 
 
 async def run_scenario(shape_desc: dict, plan: list[dict], *, max_retries: int | None, schedule: list[int] | None = None,
-                       manager: str = "default", retry_delay: int = 0) -> Result:
+                       manager: str = "default", retry_delay: int = 0, wait_order: int = 0) -> Result:
     """Build the shape and run it with ``plan`` (resolved entries with job names) under the rollback (or
     dummy) failure manager on the current deterministic loop; return what was observed.
 
@@ -1041,7 +1152,7 @@ async def run_scenario(shape_desc: dict, plan: list[dict], *, max_retries: int |
     external operation). It is reported in ``Result.deadlock`` (so that the caller can give the
     violation a precise kind) instead of through the runner's generic detector."""
     res = Result()
-    task = asyncio.ensure_future(_scenario(res, shape_desc, plan, max_retries, schedule, manager, retry_delay))
+    task = asyncio.ensure_future(_scenario(res, shape_desc, plan, max_retries, schedule, manager, retry_delay, wait_order))
     while not task.done():
         await settle()
         if not task.done() and res.settling:
@@ -1056,6 +1167,9 @@ async def run_scenario(shape_desc: dict, plan: list[dict], *, max_retries: int |
                 lines.append(f"{t.get_name()}: {where}")
             res.deadlock = "\n".join(lines[:40])
             res.pending = [ln.split(":")[0] for ln in lines]
+            res.starved = starved_ports(res)
+            if res.run is not None and res.run.barrier and (res.run.gate is None or not res.run.gate.is_set()):
+                res.barrier_stuck = True
             task.cancel()
             try:
                 await task
@@ -1067,6 +1181,31 @@ async def run_scenario(shape_desc: dict, plan: list[dict], *, max_retries: int |
     if res.run is not None and res.run.harness_errors:
         raise HarnessError("exception inside kit code:\n" + res.run.harness_errors[0])
     return res
+
+
+def starved_ports(res: Result) -> list[str]:
+    """At a deadlock: for every unfinished step of a recovery workflow, the input ports that hold no
+    token, have no producer step in that workflow and are not the target of any inter-workflow boundary
+    rule: nothing can ever arrive there. Returned as sorted, de-duplicated "<StepClass>:<PortClass>"."""
+    from streamflow.workflow.port import InterWorkflowPort
+
+    targets = set()
+    for wf in res.recovery_wfs:
+        for port in wf.ports.values():
+            if isinstance(port, InterWorkflowPort):
+                for b in port.boundaries:
+                    if b.port is not port:
+                        targets.add(id(b.port))
+    out = set()
+    for wf in res.recovery_wfs:
+        for step in wf.steps.values():
+            if step.terminated:
+                continue
+            for port in step.get_input_ports().values():
+                if port.token_list or id(port) in targets or port.get_input_steps():
+                    continue
+                out.add(f"{type(step).__name__.replace('Kit', '')}:{type(port).__name__}")
+    return sorted(out)
 
 
 def _wrap_recover(ctx, run: Run) -> None:
@@ -1152,13 +1291,35 @@ class View:
         return sorted(j for j, n in self.starts.items() if n > 1 + self.own_exec.get(j, 0))
 
     def deadlock_kind(self) -> str:
+        """stable root-cause bucket of a deadlock, from what is observable at quiescence"""
+        starved = self.res.starved
+        if "ScheduleStep:ConnectorPort" in starved:
+            # a recovery workflow holds a ScheduleStep but neither the DeployStep nor a connector token
+            return "schedule-step-without-connector"
+        if any("JobPort" in s for s in starved):
+            # a recovery workflow holds a Transfer/ExecuteStep whose job port has no producer
+            return "step-without-job-token"
+        if starved:
+            return "starved-" + "+".join(starved)
+        failed = self.res.wf is not None and any(s.status.name == "FAILED" for s in self.res.wf.steps.values())
         if self.shape.kind == "loop":
-            return "loop"
+            # "after-step-failure": a step of the loop body terminated FAILED (refused recovery / no
+            # failure manager) and the loop machinery never terminates
+            return "loop-after-step-failure" if failed else "loop-recovery"
+        if failed:
+            return "after-step-failure"
         if self.concurrent_pairs():
             return "concurrent-recoveries"
         if self.res.run.max_open >= 2:
             return "nested-recovery"
         return "single-recovery"
+
+
+def output_kind(got: Any, ref: Any) -> str:
+    """sub-bucket of an output mismatch"""
+    if isinstance(ref, list) and isinstance(got, list) and len(got) != len(ref):
+        return "output-differs:list-length"
+    return "output-differs"
 
 
 def safe_retries(shape: Shape, plan: list[dict]) -> int:
@@ -1168,7 +1329,9 @@ def safe_retries(shape: Shape, plan: list[dict]) -> int:
     C16/C18/C19 are not about the bound (C17 is)."""
     f = sum(p["times"] for p in plan)
     d = sum(p["times"] for p in plan if p["kind"] == "stop")
-    return 10 + f + 3 * d
+    # the tests use 10 for at most 8 roll-backs of one job; a job is rolled back once per failure of a
+    # descendant (the "domino effect"), plus collateral failures after deletions
+    return max(10, 4 + f + 2 * d)
 
 
 def classify(rec, res: Result, view: View) -> None:
@@ -1231,7 +1394,7 @@ def st_shape(kinds=("pipeline", "scatter", "diamond", "loop"), max_width: int = 
             )
         )
     if "loop" in kinds:
-        opts.append(st.fixed_dictionaries({"kind": st.just("loop"), "iters": st.integers(0, 6), "ndep": st.just(1)}))
+        opts.append(st.fixed_dictionaries({"kind": st.just("loop"), "iters": st.integers(0, 6), "ndep": st.just(1), "same_names": st.booleans()}))
     return st.one_of(*opts)
 
 
@@ -1258,6 +1421,8 @@ def st_case(**kw):
             "shape": st_shape(**{k: v for k, v in kw.items() if k in ("kinds", "max_width", "tokens")}),
             "plan": st_plan(**{k: v for k, v in kw.items() if k in ("max_points", "max_times", "min_points", "phases")} | ({"kinds": kw["fail_kinds"]} if "fail_kinds" in kw else {})),
             "schedule": st_schedule(),
+            # order in which tasks completing in the same loop turn are handled (see _OrderedWait)
+            "wait_order": st.sampled_from([0, 0, 1, 2, 3]),
         }
     )
 
@@ -1281,3 +1446,25 @@ async def baseline(shape_desc: dict) -> dict:
             raise HarnessError(f"failure-free run of {key}: job starts {starts} != one per job of the reference DAG {res.shape.jobs()}")
         _BASELINES[key] = {"output": res.output, "statuses": res.statuses, "tokens": res.output_tokens, "terminated_ok": res.terminated_ok}
     return _BASELINES[key]
+
+
+def survey(fn):
+    """Development aid: with VF_RK_SURVEY=<file> every violation is appended to that file (kind, case)
+    and the case returns normally, so that one run lists all kinds instead of stopping at the first."""
+    import functools
+
+    @functools.wraps(fn)
+    async def wrapper(case, rec):
+        path = os.environ.get("VF_RK_SURVEY")
+        if not path:
+            return await fn(case, rec)
+        from vf.core import Violation
+
+        try:
+            return await fn(case, rec)
+        except Violation as v:
+            with open(path, "a") as fh:
+                fh.write(json.dumps({"kind": v.kind, "case": case, "msg": v.message[:600]}) + "\n")
+            rec.nontrivial(True)
+
+    return wrapper
